@@ -154,6 +154,37 @@ def run_once_e3(cfg: E3Config, chooser: Chooser, *, world_hook=None, around_run=
         elif len(occupying) > eff_workers:
             gt.append(('C04', 'max-workers-at-rest', f'{len(occupying)} processes at rest > max_workers={eff_workers}'))
 
+    key_to_node = {}
+
+    def parent_load(cache_key):
+        # the coordinating process itself reads a stored result while run_tasks is in progress: for as
+        # long as that takes (a large result, a slow store) nothing is scheduled
+        w = world
+        if w.current_child is not None or w.in_helper_thread or w.interrupted or any(ev[0] == 'run_tasks-left' for ev in w.events[-1:]):
+            return
+        if not key_to_node:
+            for i in range(spec.n):
+                key_to_node[built.canon[i].cache_key] = i
+        me = key_to_node.get(cache_key)
+        yielded = {ev[1] for ev in backend_events if ev[0] == 'yield'}
+        started = {c.task_key for c in w.children}
+        occupying = [c for c in w.children if c.state == 'running' and not c.result_consumed]
+        waiting = []
+        for i in sorted(ref.needed):
+            k = (spec.types[i], spec.labels[i])
+            if i == me or k in started or k in yielded:
+                continue
+            if i in ref.executes and any((spec.types[j], spec.labels[j]) not in yielded for j in spec.deps[i]):
+                continue
+            mp = U.MAX_PARALLEL[k[0]]
+            if mp is not None and sum(1 for c in occupying if c.task_key[0] == k[0]) >= mp:
+                continue
+            waiting.append(k)
+        if waiting and len(occupying) < eff_workers:
+            gt.append(('C05', 'parent-load-blocks-scheduling',
+                       f'the coordinating process loads the stored result of node {me} itself while {waiting} are runnable, '
+                       f'unsubmitted and {eff_workers - len(occupying)} worker slot(s) are free'))
+    MemStorage.READ_HOOK = parent_load
     world.on_join_block.append(lambda w, child: gt.append(
         ('C05', 'blocked-on-worker-exit', f'the scheduling loop waits for the worker process of {child.task_key} to exit although its result '
                                           'has been received (the process lingers): nothing else is started or collected meanwhile')))
@@ -174,7 +205,7 @@ def run_once_e3(cfg: E3Config, chooser: Chooser, *, world_hook=None, around_run=
             backend = _BindingSpyBackend(inner, world, horizon=8 * spec.n + 16)
             backend.events = backend_events
             lt_process.run_or_load_task = _RecordRunOrLoad(backend_events, orig_rol)
-            req = [built.fresh(i) if fr else built.canon[i] for i, fr in base.requested]
+            req = [built.get(i, fr) for i, fr in base.requested]
             lab = labtech.Lab(storage=storage, runner_backend=backend, continue_on_failure=base.cof,
                               notebook=False, context=ctx, max_workers=cfg.max_workers)
             import contextlib
@@ -201,6 +232,7 @@ def run_once_e3(cfg: E3Config, chooser: Chooser, *, world_hook=None, around_run=
                     vworld=world, gt=gt)
     finally:
         lt_process.run_or_load_task = orig_rol
+        MemStorage.READ_HOOK = None
         if world.sched is not None and not world.sched.closing:
             try:
                 world.sched.shutdown()      # an error is on its way out: do not leave threads parked
